@@ -148,8 +148,8 @@ func (p *StreamPool) connections() []*connection {
 	for _, conn := range p.conns {
 		conns = append(conns, conn)
 	}
-	p.mu.RUnlock()
 	conns = verifOrderConns(conns)
+	p.mu.RUnlock()
 	return conns
 }
 
